@@ -32,8 +32,10 @@ RtTooMany == IsEv("rt") /\ E.n > 256 /\ E.exc = "OutOfMemoryError" /\ UNCHANGED 
 
 Look ==
   /\ IsEv("look") /\ E.t \in DOMAIN decl /\ UNCHANGED decl
-  /\ LET f == First(E.t, E.c) IN
-     CASE E.how \in {"inst", "tinst"} -> E.exc = "" /\ E.r = f
+  /\ (E.how \in {"simpl", "sinst"} => 0 \in DOMAIN decl)
+  /\ LET f == IF E.how \in {"simpl", "sinst"} THEN First(0, E.c) ELSE First(E.t, E.c) IN      \* s...: the subject is the type object, an instance of Type (type 0)
+     CASE E.how \in {"inst", "tinst", "sinst"} -> E.exc = "" /\ E.r = f
+       [] E.how = "simpl" -> E.exc = "" /\ E.r = (IF f # 0 THEN 1 ELSE 0)
        [] E.how \in {"impl", "timpl"} -> E.exc = "" /\ E.r = (IF f # 0 THEN 1 ELSE 0)
        [] E.how \in {"meth", "tmeth"} ->
             IF f = 0 \/ EmptyMember(E.t, f, E.m) THEN E.exc = "ClassError"        \* raised INSTEAD of returning anything callable
